@@ -1167,6 +1167,21 @@ def gen_cases(ctx):
             trees.append(('neg', post(A[0])))
     p3 = ('path', ('path', A[0], 'b'), 'c')
     trees += [('bin', 'Mul', ('bin', 'Add', p3, A[3]), A[4]), ('list', [p3]), ('neg', ('bin', 'Add', ('path', p3, 'x'), A[3])), ('call', A[0], [p3]), ('filt', A[0], p3)]
+    # names that are bound only by a binder of the expression itself (context key spelled as a name or as a string literal, iteration and
+    # quantified variable, formal parameter), used as the LEFT operand of every operator whose symbol could continue a name and as a path head:
+    # the parser must have put the name into the parsing scope before it reads the reference (seeded change C06_d: string keys were not)
+    for op in ('Sub', 'Add', 'Mul', 'Div', 'Exp', 'path'):
+        use = (lambda n: ('path', nm(n), 'y')) if op == 'path' else (lambda n: ('bin', op, nm(n), A[3]))
+        for sk1 in (False, True):
+            for sk2 in (False, True):
+                trees.append(('ctx', [('k1', sk1, A[3]), ('k2', sk2, use('k1'))]))
+            trees.append(('ctx', [('k1', sk1, A[3]), ('k2', False, ('ctx', [('key', sk1, use('k1'))]))]))
+            trees.append(('ctx', [('k1', sk1, A[3]), ('k2', not sk1, A[4]), ('key', False, ('bin', 'Add', use('k1'), use('k2')))]))
+        trees.append(('for', [('i', ('list', [A[3]]))], use('i')))
+        trees.append(('for', [('i', ('list', [A[3]])), ('j', ('list', [use('i')]))], use('j')))
+        trees.append(('some', [('v1', ('list', [A[3]]))], ('bin', 'Eq', use('v1'), A[4])))
+        trees.append(('every', [('v1', ('list', [A[3]])), ('w', ('list', [use('v1')]))], ('bin', 'Eq', use('w'), A[4])))
+        trees.append(('fun', [('k', None), ('w', None)], ('bin', 'Add', use('k'), use('w'))))
     styles = ['tight', 'plain', 'ws', 'comments', 'comments2']
     for t in trees:
         exp = expected(t)
